@@ -68,7 +68,7 @@ let bound_of kt (s : string) : key bound =
 
 let cmp = key_cmp
 
-let () =
+let spec_main () =
   let committed = ref [] and w = ref [] and kt = ref KtBytes in
   let dump tag =
     Printf.printf "%s %d %s\n" tag (int_of_n (len !committed)) (plist (List.map pe !committed)) in
@@ -179,3 +179,143 @@ let () =
        | _ -> print_endline "BADLINE")
     done
   with End_of_file -> ())
+
+(* ================================================================================================
+   shape mode (S2):  c04_driver shape [verbose]  < shape_cases.txt  > shape_model.txt
+   Replays a shape program on the EXTRACTED shape model (coq/Btree/Shape.v) and prints, after the
+   opening of every transaction and after every operation, the model's tree in the canonical format
+   of harness/src/c04_util.rs (shape_line).  The model parameters mirror the code: key/value sizes are
+   the encoded byte lengths, fixed_k / fixed_v the table's types, the separator the C15 model's
+   branch_separator of the key type; dirty flags are cleared by s_commit.
+   Glue only: parsing, commit/abort bookkeeping (committed tree vs working tree), the printer, and two
+   run-time cross checks that print a marker line when they fail:
+     ERASE!  the erasure of the shape model's result differs from Mutator.insert/delete run on the erased
+             tree with the oracle taken from the shape model (ShapeP.v proves they are equal)
+     INV!    the executable invariant checker rejects the model's tree
+   Unless `verbose` is given, a shape line is replaced by its length and FNV-1a digest. *)
+let fnv (s : string) : string =
+  let h = ref 0xcbf29ce484222325L in
+  String.iter (fun c -> h := Int64.mul (Int64.logxor !h (Int64.of_int (Char.code c))) 0x100000001b3L) s;
+  Printf.sprintf "%016Lx" !h
+
+let shape_text ps fk fv (st : (key, bytes) sbtree) : string =
+  let buf = Buffer.create 1024 in
+  Buffer.add_string buf (Printf.sprintf "S %d" (int_of_n st.sb_len));
+  let rec go depth (t : (key, bytes) snode) =
+    match t with
+    | SLeaf (d, a, es) ->
+      let used = leaf_required fk fv (n_of_int (List.length es)) (leaf_bytes key_size val_size es) in
+      Buffer.add_string buf (Printf.sprintf " L%d%c%d/%d:" depth (if d then 'd' else 'c') (int_of_n a) (int_of_n used));
+      Buffer.add_string buf (String.concat "," (List.map (fun (k, v) -> pk k ^ "=" ^ string_of_int (List.length v)) es))
+    | SBranch (d, c0, rest) ->
+      let used = branch_required fk (n_of_int (List.length rest)) (keys_size key_size (List.map fst rest)) in
+      Buffer.add_string buf (Printf.sprintf " B%d%c%d/%d:" depth (if d then 'd' else 'c') (int_of_n (alloc_for ps used)) (int_of_n used));
+      Buffer.add_string buf (String.concat "," (List.map (fun (s, _) -> pk s) rest));
+      go (depth + 1) c0; List.iter (fun (_, c) -> go (depth + 1) c) rest in
+  (match st.sb_root with None -> Buffer.add_string buf " -" | Some t -> go 0 t);
+  Buffer.contents buf
+
+(* logical tree (no decorations), for the erasure cross check *)
+let logical_text (bt : (key, bytes) btree) : string =
+  let buf = Buffer.create 1024 in
+  Buffer.add_string buf (string_of_int (int_of_n bt.bt_len));
+  let rec go (t : (key, bytes) node) =
+    match t with
+    | Leaf es -> Buffer.add_string buf " L:"; List.iter (fun (k, v) -> Buffer.add_string buf (pk k ^ "=" ^ pv v ^ ",")) es
+    | Branch (c0, rest) ->
+      Buffer.add_string buf " B:"; List.iter (fun (s, _) -> Buffer.add_string buf (pk s ^ ",")) rest;
+      Buffer.add_string buf "("; go c0; List.iter (fun (_, c) -> go c) rest; Buffer.add_string buf ")" in
+  (match bt.bt_root with None -> () | Some t -> go t);
+  Buffer.contents buf
+
+let shape_main verbose =
+  let committed = ref sempty and w = ref sempty and kt = ref KtBytes in
+  let fk = ref false and fv = ref false and ps = ref (n_of_int 512) and sep = ref key_sep_bytes in
+  let emit () =
+    let t = shape_text !ps !fk !fv !w in
+    if verbose then print_endline t
+    else Printf.printf "S %d #%d:%s\n" (int_of_n !w.sb_len) (String.length t) (fnv t);
+    if not (m_tree_checkb (erase_tree !w)) then print_endline "INV!" in
+  let check_erasure what (expected : (key, bytes) btree) =
+    (* structural comparison of the two logical trees (keys, values, structure); `compare` skips physically shared parts *)
+    if compare expected (erase_tree !w) <> 0 then
+      Printf.printf "ERASE! %s: Mutator.v gives %s, erasure of Shape.v gives %s\n" what (logical_text expected) (logical_text (erase_tree !w)) in
+  let markers : (string, int) Hashtbl.t = Hashtbl.create 64 in
+  let mark name = Hashtbl.replace markers name (1 + (try Hashtbl.find markers name with Not_found -> 0)) in
+  let ins_names = [| "insert:first-entry"; "insert:single-large-value-new-leaf-in-front"; "insert:single-large-value-new-leaf-behind";
+                     "insert:in-place-insert"; "insert:in-place-replace"; "insert:same-size-patch"; "insert:rightmost-append";
+                     "insert:rebuild-no-split"; "insert:leaf-split" |] in
+  let del_name c = match c with
+    | 1 -> "delete:leaf-in-place" | 2 -> "delete:leaf-rebuilt" | 34 -> "delete:PartialLeaf" | 33 -> "delete:DeletedSubtree(leaf emptied)"
+    | 10 -> "delete:branch-skip" | 11 -> "delete:branch-child-written-in-place" | 12 -> "delete:branch-copied"
+    | 13 -> "delete:child-removed" | 14 -> "delete:single-large-value-exemption"
+    | 15 -> "delete:leaf-merge-left" | 16 -> "delete:leaf-merge-right" | 17 -> "delete:leaf-merge-left+re-split" | 18 -> "delete:leaf-merge-right+re-split"
+    | 19 -> "delete:DeletedBranch-joins-left" | 20 -> "delete:DeletedBranch-joins-right" | 21 -> "delete:DeletedBranch-joins-left+re-split" | 22 -> "delete:DeletedBranch-joins-right+re-split"
+    | 23 -> "delete:PartialBranch-merge-left" | 24 -> "delete:PartialBranch-merge-right" | 25 -> "delete:PartialBranch-merge-left+re-split" | 26 -> "delete:PartialBranch-merge-right+re-split"
+    | 30 -> "delete:finalize->DeletedBranch" | 31 -> "delete:finalize->PartialBranch" | 32 -> "delete:finalize->Subtree"
+    | 40 -> "delete:root-collapse" | 41 -> "delete:tree-emptied" | 42 -> "delete:root-from-PartialLeaf" | 43 -> "delete:root-from-PartialBranch"
+    | c -> "delete:tag-" ^ string_of_int c in
+  let rec count_nodes (t : (key, bytes) snode) = match t with
+    | SLeaf _ -> (1, 0, 0)
+    | SBranch (_, c0, rest) ->
+      List.fold_left (fun (l, b, h) (_, c) -> let (l', b', _) = count_nodes c in (l + l', b + b', h))
+        (let (l, b, h) = count_nodes c0 in (l, b + 1, h + 1)) rest in
+  let dims () = match !w.sb_root with None -> (0, 0, 0) | Some t -> count_nodes t in
+  let mark_del k = List.iter (fun c -> mark (del_name (int_of_n c))) (s_delete_tag_list key_cmp key_size val_size !fk !fv !ps !sep !w k) in
+  let s_ins k v =
+    mark ins_names.(int_of_n (s_insert_tag key_cmp key_size val_size !fk !fv !ps !w k v));
+    let (_, b0, h0) = dims () in
+    let oracle = s_oracle key_cmp key_size val_size !fk !fv !ps !w k v in
+    let (m', _) = m_insert !fk !fv !ps !sep oracle (erase_tree !w) k v in
+    let (w', old) = s_insert key_cmp key_size val_size !fk !fv !ps !sep !w k v in
+    w := w'; check_erasure "insert" m';
+    let (_, b1, h1) = dims () in
+    if h1 > h0 then mark "insert:root-growth";
+    if b1 - b0 - (if h1 > h0 then 1 else 0) > 0 then mark "insert:branch-split";
+    old in
+  let s_del k =
+    mark_del k;
+    let (m', _) = m_delete !fk !fv !ps !sep (erase_tree !w) k in
+    let (w', old) = s_delete key_cmp key_size val_size !fk !fv !ps !sep !w k in
+    w := w'; check_erasure "delete" m'; old in
+  (try
+    while true do
+      let line = input_line stdin in
+      let toks = Array.of_list (String.split_on_char ' ' line) in
+      let key i = key_of !kt toks.(i) in
+      let value i = bytes_of_hex toks.(i) in
+      (match toks.(0) with
+       | "C" ->
+         committed := sempty; w := sempty;
+         kt := (match toks.(2) with "u64" -> KtU64 | _ -> KtBytes);
+         fk := (toks.(2) = "u64"); fv := (toks.(3) = "u64");
+         sep := (match toks.(2) with "u64" -> key_sep_left | "str" -> key_sep_str | _ -> key_sep_bytes);
+         ps := n_of_int (int_of_string toks.(4));
+         Printf.printf "C %s\n" toks.(1)
+       | "B" -> w := !committed; print_endline "B"; emit ()
+       | "K" -> committed := s_commit !w; print_endline "K"
+       | "A" -> w := !committed; print_endline "A"
+       | "O" -> ()
+       | "I" -> let old = s_ins (key 1) (value 2) in Printf.printf "I %s\n" (pov old); emit ()
+       | "D" -> let old = s_del (key 1) in Printf.printf "D %s\n" (pov old); emit ()
+       | "PF" ->
+         (match tfirst (erase_tree !w) with Some (k, _) -> mark_del k | None -> mark "pop:empty");
+         let (w', e) = s_pop_first key_cmp key_size val_size !fk !fv !ps !sep !w in
+         w := w'; Printf.printf "PF %s\n" (poe e); emit ()
+       | "PL" ->
+         (match tlast (erase_tree !w) with Some (k, _) -> mark_del k | None -> mark "pop:empty");
+         let (w', e) = s_pop_last key_cmp key_size val_size !fk !fv !ps !sep !w in
+         w := w'; Printf.printf "PL %s\n" (poe e); emit ()
+       | "" -> ()
+       | _ -> print_endline "UNMODELLED"; emit ())
+    done
+  with End_of_file -> ());
+  let oc = open_out "shape_markers.txt" in
+  List.iter (fun (k, v) -> Printf.fprintf oc "%s=%d\n" k v)
+    (List.sort compare (Hashtbl.fold (fun k v acc -> (k, v) :: acc) markers []));
+  close_out oc
+
+let () =
+  if Array.length Sys.argv > 1 && Sys.argv.(1) = "shape" then
+    shape_main (Array.length Sys.argv > 2 && Sys.argv.(2) = "verbose")
+  else spec_main ()
